@@ -321,11 +321,19 @@ type request struct {
 	Args map[string]string `json:"args,omitempty"`
 	Seed uint64            `json:"seed,omitempty"`
 	Ops  []ticketOp        `json:"ops,omitempty"`
+	// Starts: cmd "multi" — a history of ServerFactory calls inside this one process
+	Starts []multiStart `json:"starts,omitempty"`
 	// FsizeLimit: RLIMIT_FSIZE (bytes) the helper sets on itself, SIGXFSZ ignored
 	FsizeLimit *uint64 `json:"fsize_limit,omitempty"`
 }
 
+type multiStart struct {
+	Dir  string            `json:"dir"`
+	Args map[string]string `json:"args,omitempty"`
+}
+
 type reply struct {
+	Multi []multiResult `json:"multi,omitempty"`
 	OK    bool       `json:"ok"`
 	Err   string     `json:"err,omitempty"`
 	Cert  string     `json:"cert,omitempty"`
